@@ -537,6 +537,71 @@ def u8_hue_rules(rep, prog):
         rep.violate("C16.K6", "K6|hue-values-u8", body.where(), "Color3<Hsl>::to_rgb does not realise the standard hue ramp: %s" % "; ".join(bad[:3]), config=cfg)
 
 
+def _fold_int(v):
+    """a constant that the clamp / cast models left as a term"""
+    if isinstance(v, int) and not isinstance(v, bool):
+        return v
+    if isinstance(v, tuple) and v[0] == "symop":
+        if v[1] == "iclamp":
+            x = _fold_int(v[2])
+            return None if x is None else min(max(x, v[3][0]), v[3][1])
+        if v[1].startswith("cast:"):
+            x = _fold_int(v[2])
+            bits = {"u8": 8, "u16": 16, "u32": 32, "i32": 32, "usize": 64, "i64": 64}.get(v[1][5:])
+            if x is None or bits is None:
+                return None
+            x &= (1 << bits) - 1
+            return x - (1 << bits) if v[1][5:].startswith("i") and x >> (bits - 1) else x
+    return None
+
+
+def u8_to_hsl_rules(rep, prog):
+    """K6 (values, 8-bit, the other direction): Color3<Rgb>::to_hsl folded on constants for every ordering of the three channels (strict and
+    with ties), the primaries, secondaries and grays at several lightnesses: hue, saturation and lightness must be the standard HSL of the
+    colour scaled to 0..255 within the property's 8/255 (hue compared on the circle). A branch taken for one ordering only - the red
+    sector's wrap-around, a tie-break - shows here."""
+    cfg = prog.config
+    path = COL + "::<[u8; 3], math::color::Rgb>::to_hsl"
+    body = prog.body(path)
+    cols = [(255, 0, 128), (255, 128, 0), (128, 255, 0), (0, 255, 128), (0, 128, 255), (128, 0, 255), (200, 40, 90), (200, 90, 40), (90, 200, 40),
+            (40, 200, 90), (40, 90, 200), (90, 40, 200), (255, 0, 0), (0, 255, 0), (0, 0, 255), (255, 255, 0), (0, 255, 255), (255, 0, 255),
+            (255, 0, 1), (255, 1, 0), (0, 0, 0), (255, 255, 255), (128, 128, 128), (10, 10, 10), (250, 240, 245), (20, 10, 15), (130, 120, 120)]
+    bad = []
+    for r_, g_, b_ in cols:
+        it = S.interp(prog, models=MODELS, oracle=lambda op, a_, b2: None)
+        try:
+            r = A.deref_all(it, it.call_body(body, [color([r_, g_, b_])]))
+            got = [A.deref_all(it, x) for x in S.components(it, r)]
+            got = [g if _fold_int(g) is None else _fold_int(g) for g in got]
+        except A.Panic as e:
+            bad.append("rgb(%d, %d, %d) panics (%s)" % (r_, g_, b_, str(e)[:60]))
+            continue
+        except A.Undecided as e:
+            raise common.Infra("C16.K6: the 8-bit to_hsl could not be folded for rgb(%d, %d, %d) (%s)" % (r_, g_, b_, e))
+        if len(got) != 3 or not all(isinstance(v, int) and not isinstance(v, bool) for v in got):
+            raise common.Infra("C16.K6: the 8-bit to_hsl did not fold to three constants for rgb(%d, %d, %d) (%s)" % (r_, g_, b_, str(got)[:80]))
+        mx, mn = max(r_, g_, b_), min(r_, g_, b_)
+        d = mx - mn
+        l = (mx + mn) / 2.0
+        sat = 0.0 if d == 0 or l in (0.0, 255.0) else d / (255.0 - abs(2 * l - 255.0)) * 255.0
+        if d == 0:
+            hue = 0.0
+        elif mx == r_:
+            hue = ((g_ - b_) / d) % 6
+        elif mx == g_:
+            hue = (b_ - r_) / d + 2
+        else:
+            hue = (r_ - g_) / d + 4
+        hue = hue / 6 * 256
+        dh = min(abs(got[0] - hue) % 256, 256 - abs(got[0] - hue) % 256)
+        if (d > 4 and dh > 8) or abs(got[1] - sat) > 8 + (40 if d <= 16 else 0) or abs(got[2] - l) > 8:
+            bad.append("rgb(%d, %d, %d) -> hsl%s, the standard HSL is about (%d, %d, %d)" % (r_, g_, b_, tuple(got), round(hue) % 256, round(sat), round(l)))
+    rep.inst("C16.K6", "8-bit Rgb::to_hsl folded on %d colours (every ordering of the channels, ties, primaries, secondaries, grays): standard hue / saturation / "
+                       "lightness within 8/255: %s" % (len(cols), not bad), config=cfg)
+    if bad:
+        rep.violate("C16.K6", "K6|to_hsl-values-u8", body.where(), "Color3<Rgb>::to_hsl does not give the standard HSL: %s" % "; ".join(bad[:3]), config=cfg)
+
+
 def check(rep, args):
     configs = ["ws"] if rep.tier == "quick" else common.ALL_CONFIGS
     rep.configs = configs
@@ -545,6 +610,7 @@ def check(rep, args):
         rep.guard(sector_rules, rep, facts.program(cfg))
         rep.guard(hue_value_rules, rep, facts.program(cfg))
         rep.guard(u8_hue_rules, rep, facts.program(cfg))
+        rep.guard(u8_to_hsl_rules, rep, facts.program(cfg))
         from .rules_C16_int import int_panic_rules
         rep.guard(int_panic_rules, rep, facts.program(cfg))
     cov = {
